@@ -22,8 +22,9 @@ SPEC = {
         "execute_background_programs / register_task, tied by this run's correspondence",
         "Rust harness vharness c06 (generator, observation through TaskStart/TaskOverrun events, a shared "
         "sequence counter stamped by every program body, task_overrun_count)",
-        "List.mergeSort from Lean core stands for Rust's sort_by_key: the key (priority, due, index) is "
-        "injective on ready entries, so the sorted permutation is unique and stability is irrelevant",
+        "List.mergeSort from Lean core stands for Rust's sort_by_key; that the choice of algorithm (and its "
+        "stability) is irrelevant is no longer assumed but proved: c06_order_unique (the key (priority, due, "
+        "index) is injective - keyLe_antisymm - so any sorted permutation of the ready set is the model's)",
     ],
     "assumptions": [
         "clock values are non-negative i64 nanoseconds (hypothesis TimesOk of c06_task_refines)",
@@ -34,12 +35,12 @@ SPEC = {
 
 MANIFEST = {
     "technique": "Lean 4 refinement proof (state machine = history-level IEC spec, sorted duplicate-free permutation) + differential correspondence against the real scheduler",
-    "level_text": "Theorems c06_config_refines / c06_task_refines / c06_executed_iff / c06_exec_sorted / c06_no_replay / c06_background_after hold for "
+    "level_text": "Theorems c06_config_refines / c06_task_refines / c06_executed_iff / c06_exec_sorted / c06_order_unique / c06_order_reading / c06_no_replay / c06_not_replayed / c06_lastP_latest / c06_overruns_closed_form / c06_missed_formula / c06_background_after hold for "
                   "every task set, every timeline and every cycle index (induction over the history, no bound). The model is a "
                   "function-by-function transcription of collect_ready_tasks, the sort key and execute_background_programs, and each "
                   "run executes it and the real runtime (built from CONFIGURATION source through the real compiler) on the same "
                   "generated configurations and timelines and compares executed task order, program order, overrun events and counters.",
     "level_note": "Trusted: Lean kernel + propext/Quot.sound/Classical.choice; the hand-written model (validated only by the "
                   "differential run, whose generator bounds what it sees); Rust sort_by_key modelled by List.mergeSort (unique result "
-                  "because the key is injective). Clock values assumed non-negative i64. FB-instance tasks (`fb WITH T`) are generated; tasks registered directly through Runtime::register_task (same program in two tasks) are not.",
+                  "because the key is injective: theorem c06_order_unique). Clock values assumed non-negative i64. FB-instance tasks (`fb WITH T`) are generated; tasks registered directly through Runtime::register_task (same program in two tasks) are not.",
 }
